@@ -162,7 +162,7 @@ def _mc(ctx, results):
 
 
 def _sim(ctx):
-    n_tlc = 100 if ctx.quick else 600
+    n_tlc = 90 if ctx.quick else 600
     mod, cfg, files = mc_files('gen', bounds=GEN_BOUNDS, invariants=(), **GEN)
     behaviours, cmd = tlc.simulate(SPEC_DIR, mod, cfg, num=n_tlc, depth=48 if ctx.quick else 60,
                                    seed=ctx.seed * 31 + 12, procs=6 if ctx.quick else 12,
@@ -172,7 +172,7 @@ def _sim(ctx):
 
 def _gen(ctx, behaviours, cmd):
     """Step 2: behaviours of the same spec + seeded random histories."""
-    n_rnd = 100 if ctx.quick else 600
+    n_rnd = 90 if ctx.quick else 600
     ctx.cmds.append(cmd)
     rng = random.Random(ctx.seed * 7919 + 12)
     out = [('dir', copy.deepcopy(h)) for h in DIRECTED]
@@ -284,7 +284,8 @@ def _show(h):
         if e[0] == 'Sync':
             o = e[1] if len(e) > 1 else {}
             conc = ';'.join('%s@%s' % ('/'.join(map(str, x)), k) for k, v in sorted((o.get('conc') or {}).items(), key=lambda kv: int(kv[0])) for x in v)
-            out.append('Sync(%s%s)' % ('cut=%s@%s ' % tuple(o['cut']) if o.get('cut') else '', conc))
+            out.append('%s(%s%s)' % ('SyncViaRun' if o.get('run') else 'Sync',
+                                     'cut=%s@%s ' % tuple(o['cut']) if o.get('cut') else '', conc))
         else:
             out.append('%s(%s)' % (e[0], ','.join(map(str, e[1:]))))
     return out
@@ -436,6 +437,8 @@ def _corruptions(lines):
             lambda l: l['post']['dir'].__setitem__('i3', copy.deepcopy(lines[1]['post']['dir']['i3'])))
     variant('present: file of a placed instance missing after the sync', 'C12.present', end,
             lambda l: l['post']['dir'].pop('i2'))
+    variant('refresh: outdated file still holds its old content after the first sync', 'C12.refresh', end,
+            lambda l: l['post']['dir'].__setitem__('i1', copy.deepcopy(lines[2]['post']['dir']['i1'])))
     variant('atomic: instance name unparseable while the temp file is written', 'C12.atomic', wr,
             lambda l: l['post']['dir'].__setitem__('i1', dict(dot=False, kind='file', parsed=False, f={})))
     variant('atomic: final name produced by a call other than replace', 'C12.atomic', ren,
